@@ -15,7 +15,7 @@ def rebuild_for_replay(rec):
 
 
 def run(chk):
-    per = chk.pick(3000, 40000)          # scenarios PER SHARD: the 3400-point schedule grid, then sampled transfers / lifecycle histories alternately
+    per = chk.pick(3000, 200000)          # scenarios PER SHARD: the 3400-point schedule grid, then sampled transfers / lifecycle histories alternately
     chk.run('asan', build(), per)
     n = per * vf.NCPU
     chk.rule = ('scenario = listener + client (+ accepted peer, duplicates) as spif_socket objects on UNIX-domain sockets in one process; '
